@@ -5,6 +5,7 @@ record / replay path rules of the local runner (R3); replay and totality of exce
 reconstruction (R4); forget addresses the same key (R5); frame rule for the returned value (R6).
 """
 import ast
+import copy
 
 from .. import astutil as A
 from ..fa import FA, log_call
@@ -12,7 +13,7 @@ from ..loader import AnalysisError
 from .valeq import check_typed_identity, check_json_bytes, check_enum_distinct
 from .c16 import sibling_reference_sites
 from .ladders import (extract_ladder, check_ladder_order, repo_subclass_pairs, handler_ladder, dispatch_model, _bound_value, _literal_seq,
-                      table_entries, _Unsupported, subst, sequence_elements, resolve_callee, handler_type_names, comprehension_elements)
+                      table_entries, _Unsupported, subst, sequence_elements, resolve_callee, handler_type_names, comprehension_elements, fold_lookups)
 from . import partition_model as PM
 
 RL = "runner_local.memento_run_local"
@@ -789,6 +790,15 @@ def strategy_table(fa):
                 pairs += [(k, v, ids[0]) for (k, v) in ent]
         elif isinstance(n, ast.Assign) and len(n.targets) == 1 and isinstance(n.targets[0], ast.Subscript):
             pairs.append((n.targets[0].slice, n.value, ids[0]))
+        if isinstance(n, ast.Call) and A.call_attr(n) == "update" and len(n.args) == 1 and not isinstance(n.args[0], (ast.Dict, ast.DictComp)):
+            # d.update(<(key, value) rows>)
+            rows = _literal_seq(fa, n.args[0], ids[0])
+            if rows is not None and all(isinstance(r, (ast.Tuple, ast.List)) and len(r.elts) == 2 for r in rows):
+                for r in rows:
+                    v_ = fold_lookups(fa, r.elts[1], ids[0])
+                    ast.copy_location(v_, n)
+                    k_ = ast.copy_location(copy.deepcopy(r.elts[0]), n)
+                    pairs.append((k_, v_, ids[0]))
     table = {}
     # in source order: a later entry for the same member replaces an earlier one
     pairs.sort(key=lambda kv_: (getattr(kv_[0], "lineno", 0) or getattr(kv_[1], "lineno", 0), getattr(kv_[0], "col_offset", 0)))
@@ -1188,6 +1198,9 @@ def check_replay(ck, R):
         else:
             outs.append((r, lits, None, None))
     ck.need(outs, "process_existing_memento: no return reached")
+    ck.need(all(o[3] in ("True", "False") for o in outs if o[3] is not None),
+            "process_existing_memento: whether an answer is valid is not evident on every path (`%s`)"
+            % next((o[3] for o in outs if o[3] not in ("True", "False", None)), ""))
     def exc_test(lits, pol):
         """Has the path seen `isinstance(<the value read>, MementoException)` answer `pol`?"""
         for (tx, p) in lits:
@@ -1461,9 +1474,25 @@ def check_exception_surface(ck, R):
     vp = FA(ck, "storage_base.DefaultCodec.ValuePickleStrategy.encode")
     vl = FA(ck, "storage_base.DefaultCodec.ValuePickleStrategy.load")
     vp_obj = (vp.fi.params + ["obj", "obj"])[1]
+    def through_alias(fa_, c):
+        """Dotted name of the callee, looking through a class- or module-level alias (`_dumps = staticmethod(partial(pickle.dumps,
+        protocol=5))` called as self._dumps(x))."""
+        d_ = A.call_dotted(c) or ""
+        f_ = c.func
+        for _ in range(3):
+            v_ = _bound_value(fa_, f_, None) if (isinstance(f_, ast.Attribute) or (isinstance(f_, ast.Name) and not fa_.df.is_local(f_.id))) else None
+            if v_ is None:
+                break
+            while isinstance(v_, ast.Call) and A.call_attr(v_) in ("staticmethod", "classmethod", "partial") and v_.args:
+                v_ = v_.args[0]
+            if A.dotted(v_) is None:
+                break
+            d_, f_ = A.dotted(v_), v_
+        return d_
+
     pickled, sinks = [], set()
     for c in vp.calls():
-        d = A.call_dotted(c) or ""
+        d = through_alias(vp, c)
         recv = A.call_recv(c)
         if d in ("pickle.dumps", "dumps") and c.args:
             pickled.append((c, c.args[0], None))
@@ -1477,14 +1506,14 @@ def check_exception_surface(ck, R):
     rets_p = [r for r in vp.returns() if r.value is not None and vp.nodes(r)]
     for r in rets_p:
         deps = vp.deps(r.value)
-        via_value = "call:dumps" in deps
+        via_value = "call:dumps" in deps or any(sk is None and ("call:%s" % A.call_attr(c)) in deps for (c, _a, sk) in pickled)
         via_sink = any(sk is not None and vp.nodes(c) and (set(vp.deps(sk, vp.nodes(c)[0])) & deps) - {"param:self"} for (c, _a, sk) in pickled)
         okp = okp and (via_value or via_sink)
     okp = okp and bool(rets_p)
 
     def unpickles(fa_):
         for c in fa_.calls():
-            d = A.call_dotted(c) or ""
+            d = through_alias(fa_, c)
             if d in ("pickle.loads", "pickle.load", "loads") or (A.call_attr(c) == "load" and isinstance(A.call_recv(c), ast.Call) and A.call_attr(A.call_recv(c)) in ("Unpickler", "_Unpickler")):
                 return True
         return False
@@ -1741,6 +1770,15 @@ class _Absent:
                         events += fa.nodes(n)
                     elif nm in _REMOVERS and n.args and key_ok(n.args[0]) and fa.unconditional(n):
                         events += fa.nodes(n)
+                    elif nm in _REMOVERS and n.args and key_ok(n.args[0]) and fa.nodes(n):
+                        # `self.S.pop(k) if k in self.S else <default>`: removed where held, and not held otherwise
+                        x_, up_ = n, fa.pm.get(n)
+                        while up_ is not None and not isinstance(up_, (ast.IfExp, ast.stmt)):
+                            x_, up_ = up_, fa.pm.get(up_)
+                        if isinstance(up_, ast.IfExp) and x_ is up_.body and isinstance(up_.test, ast.Compare) and len(up_.test.ops) == 1 \
+                                and isinstance(up_.test.ops[0], ast.In) and _slot_expr(up_.test.comparators[0], me) == slot \
+                                and key_ok(up_.test.left) and fa.unconditional(up_):
+                            events += fa.nodes(n)
                     elif nm == "get" and n.args and key_ok(n.args[0]) and fa.nodes(n):
                         # `self.S.get(k) is None` taken true: nothing is held for k
                         nid = fa.nodes(n)[0]
@@ -1791,6 +1829,20 @@ class _Absent:
                 view = ast.Compare(left=n.left, ops=[ast.In()], comparators=[ast.Attribute(value=ast.Name(id=me, ctx=ast.Load()), attr=slot, ctx=ast.Load())])
                 absent.add((fa._literal(n, nid, True)[0], False))
                 absent.add((fa._literal(view, nid, True)[0], False))
+        # a loop over a non-empty literal (`for key in [cache_key]: self.S.pop(key, None)`) runs its body: what the leading
+        # straight-line statements of the body establish, the loop establishes
+        for lp in fa.stmts((ast.For, ast.AsyncFor)):
+            it_ = lp.iter
+            if isinstance(it_, ast.Name) and fa.nodes(lp):
+                it_ = follow_value(fa, it_, fa.nodes(lp)[0])[0]
+            if not (isinstance(it_, (ast.Tuple, ast.List)) and it_.elts and fa.nodes(lp)) or lp.orelse:
+                continue
+            for st in lp.body:
+                if isinstance(st, (ast.If, ast.Try, ast.While, ast.For, ast.Return, ast.Raise, ast.Break, ast.Continue, ast.With)):
+                    break
+                if set(fa.nodes(st)) & set(events):
+                    events += fa.nodes(lp)
+                    break
         from .cache_model import branch_filter
         edge_ok = branch_filter(fa, lambda txt, pol: (txt, pol) in absent)
         ok = cfg.must_pass(events, cfg.exit, edge_ok=edge_ok)
@@ -1839,6 +1891,7 @@ def check_forget_reaches_answers(ck, R):
         fa = FA(ck, fm)
         sme = (fm.params or ["self"])[0]
         explicit = fm.params[1:]
+        verdicts_ = []
         for src in sources:
             src_txt = "%s.%s" % (sme, src)
             events = []
@@ -1883,11 +1936,65 @@ def check_forget_reaches_answers(ck, R):
             unset = {(src_txt, False), ("%s is None" % src_txt, True)}
             edge_ok = branch_filter(fa, lambda txt, pol: (txt, pol) in unset)
             ok = bool(events) and fa.cfg.must_pass(events, fa.cfg.exit, edge_ok=edge_ok)
+            if not ok:
+                ok = _delivered_through_generic_helper(ck, bcls, fa, name, src, explicit, sme)
             wit = None if ok else fa.cfg.path(fa.cfg.entry, fa.cfg.exit, removed=events, edge_ok=edge_ok)
+            verdicts_.append((src, src_txt, ok, wit, bool(events)))
+        if not any(ok for (_s, _t, ok, _w, _e) in verdicts_) and not any(e for (_s, _t, _o, _w, e) in verdicts_):
+            # nothing is sent to any source by name here: if the operation is handed to something this rule does not follow (a
+            # helper iterating "the stores", a generator of layers), say so instead of reporting each source as skipped
+            indirect = [c for c in fa.calls() if _own_method(ck.repo, bcls, c, sme)[0] is not None and A.call_attr(c) not in CACHE_QUERIES] or \
+                [lp for lp in fa.stmts((ast.For, ast.AsyncFor)) if isinstance(lp.iter, (ast.Call, ast.Name))]
+            ck.need(not indirect, "StorageBackendBase.%s: the operation reaches the sources only through `%s`, which is not followed"
+                    % (name, A.short(indirect[0], 60) if indirect else ""))
+        for (src, src_txt, ok, wit, _e) in verdicts_:
             ck.ob(R, fa.key(None, "delivered-to:" + src), ok,
                   "%s is delivered to %s (consulted by is_memoized) on every path on which it is configured" % (name, src_txt) if ok else
                   "%s can return (path %s) without telling %s to forget, yet is_memoized consults it: the forgotten call is still reported "
                   "as memoized / served from there" % (name, fa.cfg.describe_path(wit) if wit else "?", src_txt), fa.where())
+
+
+def _delivered_through_generic_helper(ck, bcls, fa, name, src, explicit, me):
+    """The three forget operations folded into one helper that is told the operation by name:
+    `self._forget("forget_call", x)` with `getattr(self.<src>, operation)(*args)` inside.  Holds when the helper is called on every
+    path with the operation's own name (and the forgotten thing), and the helper sends `getattr(self.<src>, <that parameter>)(...)`
+    on every path on which the source is configured."""
+    from .cache_model import branch_filter
+    for c in fa.calls():
+        callee, off = _own_method(ck.repo, bcls, c, me)
+        if callee is None or callee.qual == fa.qual or not fa.unconditional(c) or not fa.nodes(c):
+            continue
+        named = [i for i, a in enumerate(c.args) if A.const_str(a) == name]
+        if not named or named[0] + off >= len(callee.params):
+            continue
+        if explicit:
+            try:
+                if not any(("param:" + explicit[0]) in fa.deps(a) for a in c.args if not isinstance(a, ast.Starred)):
+                    continue
+            except AnalysisError:
+                continue
+        if not fa.cfg.must_pass(fa.nodes(c), fa.cfg.exit):
+            continue
+        op_param = callee.params[named[0] + off]
+        cfa = FA(ck, callee)
+        cme = (callee.params or ["self"])[0]
+        src_txt = "%s.%s" % (cme, src)
+        sends = []
+        for c2 in cfa.calls():
+            g = c2.func
+            if isinstance(g, ast.Call) and isinstance(g.func, ast.Name) and g.func.id == "getattr" and len(g.args) == 2 \
+                    and isinstance(g.args[1], ast.Name) and g.args[1].id == op_param and cfa.nodes(c2) \
+                    and cfa.xnorm(g.args[0], cfa.nodes(c2)[0]) == src_txt and cfa.unconditional(c2):
+                if explicit and not c2.args:
+                    continue   # the forgotten thing is not handed on
+                sends += cfa.nodes(c2)
+        if any(isinstance(n, ast.Assign) and any(isinstance(t, ast.Name) and t.id == op_param for t in n.targets) for n in A.walk_body(callee.node)):
+            continue
+        unset = {(src_txt, False), ("%s is None" % src_txt, True)}
+        edge_ok = branch_filter(cfa, lambda txt, pol: (txt, pol) in unset)
+        if sends and cfa.cfg.must_pass(sends, cfa.cfg.exit, edge_ok=edge_ok):
+            return True
+    return False
 
 
 def check(ck):
